@@ -3,7 +3,7 @@
 #   ./matrix.sh <seed-dir-name> [check ids...]     e.g. ./matrix.sh C01b C01 C02
 # Uses a scratch worktree of /repo under /tmp/mx and VERIF_REPO / VERIF_OUT_DIR.
 seed=$1; shift
-checks=${@:-$(cd /verif && ./run list)}
+checks=${@:-$(cd /verif && ./run list | tr " " "\n" | grep -v C17 | tr "\n" " ")}
 wt=/tmp/mx/$seed
 patch=/verif/seeded/$seed/patch.diff
 [ -f /verif/seeded/$seed/patch_ported.diff ] && patch=/verif/seeded/$seed/patch_ported.diff
